@@ -273,7 +273,6 @@ class Base58Check(Driver):
         obs.append(("a2b_hashed_base58", st, got))
         st, v = call(A.b58.is_hashed_base58_valid, s)
         obs.append(("is_hashed_base58_valid", st, v))
-        pstr = None
         st, v = call(lambda: A_ps.parse_b58_double_sha256(s))
         obs.append(("parse_b58_double_sha256", st, v))
         st2, v2 = call(lambda: (lambda q: (A_ps.parse_b58_double_sha256(q), A_ps.parse_b58_double_sha256(q)))(A_ps.parseable_str(s)))
@@ -321,55 +320,56 @@ def spec_name(A, spec):
 
 def compare_string(A, hrp, s, with_helper=True, with_encode=True):
     """run every pycoin Bech32 entry point on ``s`` and compare with the reference.
-    Returns (BAD outcome or None, outcome class, number of calls)."""
-    reason, r_hrp, r_data, r_spec = RB.bech32_check(s)
-    sreason, r_ver, r_prog = RB.segwit_check(hrp, s)
+    Returns (BAD outcome or None, outcome class, number of calls, reference bech32_check result)."""
+    checked = RB.bech32_check(s)
+    reason, r_hrp, r_data, r_spec = checked
+    sreason, r_ver, r_prog = RB.segwit_rule(hrp, checked)
     n = 0
     # --- bech32_decode
     st, got = call(A.bech32m.bech32_decode, s)
     n += 1
     ref = "%r: %s" % (s[:120], "not Bech32/Bech32m (%s)" % reason if reason else "(%r, %d symbols, %s)" % (r_hrp, len(r_data), r_spec))
     if st == "exc":
-        return BAD("bech32-decode-raises", ref, exc_str(got), n=n, clause="bech32-decode-exception"), None, n
+        return BAD("bech32-decode-raises", ref, exc_str(got), n=n, clause="bech32-decode-exception"), None, n, checked
     try:
         g_hrp, g_data, g_spec = got
     except Exception:
-        return BAD("bech32-decode", ref, "returned %r" % (got,), n=n, clause="bech32-decode"), None, n
+        return BAD("bech32-decode", ref, "returned %r" % (got,), n=n, clause="bech32-decode"), None, n, checked
     if reason is not None:
         if (g_hrp, g_data, g_spec) != (None, None, None):
             return BAD("bech32-invalid-accepted", ref, "bech32_decode returned %r" % ((g_hrp, g_data, g_spec),), n=n,
-                       clause="bech32-invalid-accepted", reason=reason), None, n
+                       clause="bech32-invalid-accepted", reason=reason), None, n, checked
     else:
         if g_hrp != r_hrp or g_data is None or list(g_data) != r_data or spec_name(A, g_spec) != r_spec:
             return BAD("bech32-valid-rejected" if g_hrp is None else "bech32-decode", ref, "bech32_decode returned %r" % ((g_hrp, g_data, g_spec),),
-                       n=n, clause="bech32-valid-rejected" if g_hrp is None else "bech32-decode"), None, n
+                       n=n, clause="bech32-valid-rejected" if g_hrp is None else "bech32-decode"), None, n, checked
         if with_encode:
             st, back = call(A.bech32m.bech32_encode, g_hrp, g_data, g_spec)
             n += 1
             if st == "exc" or back != s.lower():
-                return BAD("bech32-encode", "bech32_encode(decode(s)) == %r" % s.lower()[:120], show(st, back), n=n, clause="bech32-encode"), None, n
+                return BAD("bech32-encode", "bech32_encode(decode(s)) == %r" % s.lower()[:120], show(st, back), n=n, clause="bech32-encode"), None, n, checked
     # --- segwit decode
     st, got = call(A.bech32m.decode, hrp, s)
     n += 1
     sref = "%r: %s" % (s[:120], "not a segwit address for %r (%s)" % (hrp, sreason) if sreason else "version %d program %s" % (r_ver, r_prog.hex()))
     if st == "exc":
-        return BAD("segwit-decode-raises", sref, exc_str(got), n=n, clause="segwit-decode-exception"), None, n
+        return BAD("segwit-decode-raises", sref, exc_str(got), n=n, clause="segwit-decode-exception"), None, n, checked
     try:
         g_ver, g_prog = got
     except Exception:
-        return BAD("segwit-decode", sref, "returned %r" % (got,), n=n, clause="segwit-decode"), None, n
+        return BAD("segwit-decode", sref, "returned %r" % (got,), n=n, clause="segwit-decode"), None, n, checked
     if sreason is not None:
         if (g_ver, g_prog) != (None, None):
-            return BAD("segwit-invalid-accepted", sref, "decode returned %r" % ((g_ver, g_prog),), n=n, clause="segwit-invalid-accepted", reason=sreason), None, n
+            return BAD("segwit-invalid-accepted", sref, "decode returned %r" % ((g_ver, g_prog),), n=n, clause="segwit-invalid-accepted", reason=sreason), None, n, checked
     else:
         if g_ver != r_ver or g_prog is None or bytes(g_prog) != r_prog:
             return BAD("segwit-valid-rejected" if g_ver is None else "segwit-decode", sref, "decode returned %r" % ((g_ver, g_prog),), n=n,
-                       clause="segwit-valid-rejected" if g_ver is None else "segwit-decode"), None, n
+                       clause="segwit-valid-rejected" if g_ver is None else "segwit-decode"), None, n, checked
         if with_encode:
             st, back = call(A.bech32m.encode, hrp, r_ver, r_prog)
             n += 1
             if st == "exc" or back != s.lower():
-                return BAD("segwit-encode", "encode(%r, %d, %s) == %r" % (hrp, r_ver, r_prog.hex(), s.lower()), show(st, back), n=n, clause="segwit-encode"), None, n
+                return BAD("segwit-encode", "encode(%r, %d, %s) == %r" % (hrp, r_ver, r_prog.hex(), s.lower()), show(st, back), n=n, clause="segwit-encode"), None, n, checked
     # --- cached helper used by address parsing
     if with_helper:
         def helper():
@@ -378,39 +378,39 @@ def compare_string(A, hrp, s, with_helper=True, with_encode=True):
         st, got = call(helper)
         n += 1
         if st == "exc":
-            return BAD("helper-raises", sref, exc_str(got), n=n, clause="parse-bech32-helper"), None, n
+            return BAD("helper-raises", sref, exc_str(got), n=n, clause="parse-bech32-helper"), None, n, checked
         if not (got[0] == got[1] == got[2]):
-            return BAD("helper-cache", "the same result on every call", repr(got)[:300], n=n, clause="parse-bech32-helper"), None, n
+            return BAD("helper-cache", "the same result on every call", repr(got)[:300], n=n, clause="parse-bech32-helper"), None, n, checked
         h = got[0]
         if reason is not None:
             if h is not None:
-                return BAD("helper-invalid-accepted", ref, "parse_bech32 returned %r" % (h,), n=n, clause="parse-bech32-helper", reason=reason), None, n
+                return BAD("helper-invalid-accepted", ref, "parse_bech32 returned %r" % (h,), n=n, clause="parse-bech32-helper", reason=reason), None, n, checked
         elif h is not None:
             try:
                 h_hrp, h_ver, h_prog, h_spec = h
                 bad = h_hrp != r_hrp or h_ver != r_data[0] or spec_name(A, h_spec) != r_spec
                 looks_valid = RB.program_rule(h_ver, bytes(h_prog), spec_name(A, h_spec)) is None
             except Exception as e:
-                return BAD("helper-shape", ref, "parse_bech32 returned %r (%s)" % (h, e), n=n, clause="parse-bech32-helper"), None, n
+                return BAD("helper-shape", ref, "parse_bech32 returned %r (%s)" % (h, e), n=n, clause="parse-bech32-helper"), None, n, checked
             if bad:
-                return BAD("helper-decode", ref, "parse_bech32 returned %r" % (h,), n=n, clause="parse-bech32-helper"), None, n
-            full_reason = RB.segwit_check(r_hrp, s)[0]
+                return BAD("helper-decode", ref, "parse_bech32 returned %r" % (h,), n=n, clause="parse-bech32-helper"), None, n, checked
+            full_reason, _, full_prog = RB.segwit_rule(r_hrp, checked)
             if full_reason is None:
-                if bytes(h_prog) != RB.segwit_check(r_hrp, s)[2]:
-                    return BAD("helper-decode", sref, "parse_bech32 returned %r" % (h,), n=n, clause="parse-bech32-helper"), None, n
+                if bytes(h_prog) != full_prog:
+                    return BAD("helper-decode", sref, "parse_bech32 returned %r" % (h,), n=n, clause="parse-bech32-helper"), None, n, checked
             elif looks_valid:
                 return BAD("helper-invalid-accepted", "%r is not a segwit address (%s)" % (s[:120], full_reason),
-                           "parse_bech32 returned a well-formed (version, program, spec): %r" % (h,), n=n, clause="parse-bech32-helper", reason=full_reason), None, n
+                           "parse_bech32 returned a well-formed (version, program, spec): %r" % (h,), n=n, clause="parse-bech32-helper", reason=full_reason), None, n, checked
         else:
-            if RB.segwit_check(r_hrp, s)[0] is None:
-                return BAD("helper-valid-rejected", sref, "parse_bech32 returned None", n=n, clause="parse-bech32-helper"), None, n
+            if RB.segwit_rule(r_hrp, checked)[0] is None:
+                return BAD("helper-valid-rejected", sref, "parse_bech32 returned None", n=n, clause="parse-bech32-helper"), None, n, checked
     if sreason is None:
         cls = "valid:v%s:%s" % ("0" if r_ver == 0 else "1-16", r_spec)
     elif reason is None:
         cls = "bech32-ok:%s" % sreason
     else:
         cls = "rejected:%s" % reason
-    return None, cls, n
+    return None, cls, n, checked
 
 
 def apply_case(s, mode):
@@ -568,7 +568,7 @@ class Grid(Driver):
         else:
             s = case["s"]
             hrp = case["hrp"]
-        bad, cls, n = compare_string(A, hrp, s, with_encode=True)
+        bad, cls, n, _ = compare_string(A, hrp, s, with_encode=True)
         if bad is not None:
             return bad
         if case["kind"] == "grid" and case["mode"] == "lower" and case["pad"] == "zero":
@@ -621,6 +621,8 @@ class Errors(Driver):
                        ("a", RB.bech32_encode("a", [3, 14], RB.BECH32M), 2 if tier == "quick" else 3)]
         self.bound = dict(addresses=[a for _, a in self.addrs], weights={self.addrs[i][1]: w for i, w in self.plan},
                           short_strings={s: w for _, s, w in self.shorts}, alternatives="data symbol: 31, hrp character: 35")
+
+    _base_spec = {}
 
     def targets(self):
         out = []
@@ -675,14 +677,16 @@ class Errors(Driver):
             t[k] = c
         s = "".join(t)
         w = len(case["subs"])
-        base_spec = RB.bech32_check(base)[3]
+        base_spec = self._base_spec.get(base)
+        if base_spec is None:
+            base_spec = self._base_spec[base] = RB.bech32_check(base)[3]      # memo of the harness, recomputed from the case on a miss
         if base_spec is None or s == base:
             raise ModelInvalid("bad error case %r" % (case,))
-        bad, cls, n = compare_string(A, case["hrp"], s, with_helper=False, with_encode=False)
+        bad, cls, n, checked = compare_string(A, case["hrp"], s, with_helper=False, with_encode=False)
         if bad is not None:
             bad.tags["weight"] = w
             return bad
-        reason, r_hrp, r_data, r_spec = RB.bech32_check(s)
+        reason, r_spec = checked[0], checked[3]
         in_hrp = any(k < base.rfind("1") for k, c in case["subs"])
         if reason is None:
             if r_spec == base_spec and not in_hrp:
@@ -916,7 +920,7 @@ class Bch(Driver):
             # the table said this pattern maps src-valid to dst-valid: the table (hence the real polymod) and the reference disagree
             return BAD("cross-pattern-not-valid", "pattern %r turns %r into a valid %s string" % (case["pattern"], base, dst),
                        "reference: %s" % (reason or r_spec), clause="polymod-differs", L=L)
-        bad, cls, n = compare_string(A, self.HRP, s, with_helper=True, with_encode=True)
+        bad, cls, n, _ = compare_string(A, self.HRP, s, with_helper=True, with_encode=True)
         if bad is not None:
             bad.tags["weight"] = len(case["pattern"])
             return bad
